@@ -166,6 +166,28 @@ fn run_step(gp: &str, lp: &str, outdir: &str, cfg: &Cfg18) -> Result<StepOut, St
     Ok(StepOut { parser_ok: pl.starts_with("PARSER ok"), regenerated: if pl.contains("regenerated=true") { Some(true) } else if pl.contains("regenerated=false") { Some(false) } else { None }, lexer_ok: ll.starts_with("LEXER ok"), raw })
 }
 
+fn mtime(p: &str) -> Option<std::time::SystemTime> {
+    std::fs::metadata(p).ok()?.modified().ok()
+}
+
+/// Wait until the file system clock has moved past the modification times of `paths`: file
+/// timestamps are coarse (several ms), and the builder skips a build only if its output is
+/// strictly newer than the grammar, so a history whose steps are microseconds apart would
+/// otherwise produce timestamp ties that no edit made by a person has.
+fn settle(dir: &str, paths: &[&str]) {
+    let newest = paths.iter().filter_map(|p| mtime(p)).max();
+    let Some(newest) = newest else { return };
+    let probe = format!("{dir}/.tick");
+    for _ in 0..400 {
+        std::fs::write(&probe, b"x").ok();
+        if mtime(&probe).is_some_and(|t| t > newest) {
+            break;
+        }
+        std::thread::sleep(std::time::Duration::from_millis(1));
+    }
+    std::fs::remove_file(&probe).ok();
+}
+
 fn file_id(p: &str) -> Option<(u64, i64, i64)> {
     use std::os::unix::fs::MetadataExt;
     std::fs::metadata(p).ok().map(|m| (m.ino(), m.mtime(), m.mtime_nsec()))
@@ -195,7 +217,7 @@ impl Check for C18 {
         "one history per case: 8 (quick) / 14 (thorough) seeded steps over {edit grammar to another valid grammar, edit lexer, change one builder option (recoverer, yacckind, serialisation format, visibility, edition, module names, error_on_conflicts, warnings_are_errors, lexer flag), make the grammar invalid (syntax error / unknown rule / conflict under error_on_conflicts / unused token under warnings_are_errors), make the lexer invalid, repair, rebuild unchanged}; every step ends with an incremental build in a subprocess followed by a clean-build oracle in another subprocess (same grammar path, empty output directory); compared: success/failure, generated parser and lexer files byte-identical modulo build timestamp, no generated parser left behind by a failing build, regenerated() true iff sources or settings changed since the last successful build (or the output was removed by a failed build), lexer output untouched (inode+mtime) iff nothing it depends on changed. Non-trivial = history with >= 1 skipped build and >= 1 regeneration caused by an option change or a failure followed by a repair; distinct by history."
     }
     fn assumptions(&self) -> Vec<&'static str> {
-        vec!["file timestamps are real; edits always happen after the previous build's output was written, so the strict mtime comparison in the skip test sees them the way a user's edits would be seen", "files are never touched without a content change"]
+        vec!["file timestamps are real; edits always happen after the previous build's output was written, so the strict mtime comparison in the skip test sees them the way a user's edits would be seen", "files are never touched without a content change", "every build starts after the file-system clock has ticked past the last edit (the harness waits for it); if the generated parser is nevertheless not strictly newer than the grammar file, a regeneration without a change is the builder's documented conservative behaviour and is counted (regenerated_on_timestamp_tie), not reported"]
     }
     fn floor(&self, tier: Tier) -> u64 {
         tier.sz(20, 250)
@@ -340,6 +362,12 @@ impl Check for C18 {
             out.evals += 1;
             let detail = |x: String| json!({"history": history, "grammar": gtext, "lexer": ltext, "settings": cfg.to_json(), "obs": x});
             let lex_id_before = file_id(&format!("{outd}/g.l.rs"));
+            settle(&dir, &[&gp, &lp]);
+            // a generated parser that is not strictly newer than the grammar is regenerated whatever else holds
+            let output_not_newer = match (mtime(&format!("{outd}/g.y.rs")), mtime(&gp)) {
+                (Some(o), Some(g)) => o <= g,
+                _ => false,
+            };
             let inc = match run_step(&gp, &lp, &outd, &cfg) {
                 Ok(s) => s,
                 Err(e) => {
@@ -414,7 +442,9 @@ impl Check for C18 {
                             out.count("builds_skipped", 1);
                             skipped += 1;
                         }
-                        if r != want_regen {
+                        if r && !want_regen && output_not_newer {
+                            out.count("regenerated_on_timestamp_tie", 1);
+                        } else if r != want_regen {
                             out.violate("regenerated-flag", &[], format!("regenerated() = {r} but sources/settings {} since the last successful build", if want_regen { "changed" } else { "did not change" }), detail(String::new()));
                         }
                     }
